@@ -663,6 +663,7 @@ fn mode_cancel(ctx: &Ctx) {
         if sock == "tcp" {
             let l = may::net::TcpListener::bind("127.0.0.1:0").expect("bind");
             let addr = l.local_addr().unwrap();
+            let lfd = l.as_raw_fd();
             let victim = unsafe {
                 may::coroutine::Builder::new().name("victim".into()).spawn(move || {
                     let _fl = fl;
@@ -695,7 +696,17 @@ fn mode_cancel(ctx: &Ctx) {
             if !dropped.load(Ordering::SeqCst) {
                 ctx.fail("accept: the cancelled coroutine did not drop what it owned".into());
             }
-            if std::net::TcpStream::connect(addr).is_ok() {
+            // check runs scenario processes in parallel: the port of a closed listener can be given to a listener of
+            // another process at once, so a successful connect alone proves nothing.  The listener is still open iff its
+            // descriptor is still a listening socket (looked at before anything else in this process opens a descriptor)
+            let still_listening = unsafe {
+                extern "C" {
+                    fn getsockopt(fd: i32, level: i32, name: i32, val: *mut i32, len: *mut u32) -> i32;
+                }
+                let (mut v, mut len) = (0i32, 4u32);
+                getsockopt(lfd, 1, 30 /* SO_ACCEPTCONN */, &mut v, &mut len) == 0 && v == 1
+            };
+            if still_listening && std::net::TcpStream::connect(addr).is_ok() {
                 ctx.fail("accept: the listener of the cancelled coroutine still accepts connections".into());
             }
         } else {
